@@ -309,6 +309,8 @@ class C03:
         c = _gen_common(rng, tier, ["TorrentFileHybrid", "Assembler3", "cli3"])
         if rng.random() < 0.15 and not c["tree"]["single"]:
             c["tree"] = gen.gen_tree(rng, 2 ** c["pl_exp"], tier, layout="single")
+        # the align option next to the hybrid version: a hybrid is aligned by construction, the option adds nothing
+        c["align_option"] = rng.random() < 0.25
         return c
 
     @staticmethod
@@ -320,7 +322,9 @@ class C03:
         root, out, reach = _setup(case, scratch, names)
         counters = {}
         oc = drive.create(r, spelled(case, root), os.path.join(out, "m.torrent"), piece_length=case["pl"],
-                          progress=case["progress"])
+                          progress=case["progress"], align=bool(case.get("align_option")))
+        if case.get("align_option"):
+            counters["created_with_align_option"] = 1
         viol = []
         pl = 2 ** case["pl_exp"]
         if not oc.ok:
